@@ -96,12 +96,15 @@ def case_group_independence(case):
         return core.ood("invalid-combination")
     from glotaran.optimization.optimizer import Optimizer
 
+    try:
+        ref = S.reference(spec, 0)
+    except S.OutOfDomain as e:
+        return core.ood(e.reason)
     scheme = S.build_scheme(spec)
     opt = Optimizer(scheme, verbose=False, raise_exception=True)
     labels, x0, _, _ = scheme.parameters.get_label_value_and_bounds_arrays(exclude_non_vary=True)
     opt._free_parameter_labels = labels
     base = np.array(opt.objective_function(x0), dtype=float)
-    ref = S.reference(spec, 0)
     n_first = sum(
         ref["datasets"][d["label"]]["weighted_residual"].size for d in spec["datasets"] if d["group"] == "default"
     ) + len(ref["additional_penalty"][0])
